@@ -44,7 +44,7 @@ def gen(rng, tier):
     frac = 1.0 if tier == "thorough" else 0.35
     for name, keep in [("c01", ("count:", "malformed", "final-word")), ("c14", ("boundary", "malformed", "mutated", "for_index", "maybe-out-of-range")),
                        ("c15", ("boundary-scalars", "v-sweep", "length:", "mutated", "malformed", "utf8-straddle")), ("c13", ("malformed", "structure", "fuzz-number", "missing-field")),
-                       ("c09", ("int-boundary", "bytesN", "wrong-kind", "structural", "huge-declared-size", "undefined-unreached", "fixed-array")), ("c20", ("repeated", "foreign", "wrong-type", "no-domain-type")),
+                       ("c09", ("int-boundary", "bytesN", "wrong-kind", "structural", "huge-declared-size", "undefined-unreached", "fixed-array", "repeated", "domain-violation", "recursive-type")), ("c20", ("repeated", "foreign", "wrong-type", "no-domain-type")),
                        ("c11", ("sig.v", "chain:2^25", "bit-boundary")), ("c19", ("malformed", "mutated")), ("c12", ("fail", "L:unsupported", "bad-length", "short-read", "vanity-fail"))]:
         mod = importlib.import_module("vlib.props." + name)
         for c in mod.gen(rng, "quick"):
